@@ -415,7 +415,7 @@ EXTRA_SECTIONS.append(provgen_section)
 SECTION_PROPS["extract_provgen"] = ["C18"]
 from extract_state import state_section  # noqa: E402  (protocol-UPath branch of nodes._get_state: Lemmas/StateUPath.lean, C02 / C03)
 EXTRA_SECTIONS.append(state_section)
-SECTION_PROPS["extract_state"] = ["C02", "C03"]
+SECTION_PROPS["extract_state"] = ["C02", "C03", "C12"]
 
 
 def main(write: bool = True) -> int:
